@@ -73,7 +73,7 @@ func (x *Enc) havocAll(h Heap, reach Term) Heap {
 	x.sc.assert(app(">=", x.hget(nh, keyAlloc), oldAlloc))
 	// ghost call counters are not program state: a havoc does not touch them
 	for _, k := range sortedKeys(x.keys) {
-		if strings.HasPrefix(k, "$cnt:") || strings.HasPrefix(k, "$arg:") || strings.HasPrefix(k, "$res:") {
+		if strings.HasPrefix(k, "$cnt:") || strings.HasPrefix(k, "$arg:") || strings.HasPrefix(k, "$res:") || strings.HasPrefix(k, "$snap:") {
 			nh.m[k] = x.hget(h, k)
 		}
 	}
